@@ -40,7 +40,7 @@ def plan(tier, seed):
 
 FEATURES = ['traps', 'compliance', 'compliance_objects', 'capabilities', 'capabilities_modules', 'blocks',
             'types', 'smi_tc', 'defval', 'defval_bits', 'defval_oid', 'defval_empty_string',
-            'defval_bin_octets', 'defval_empty_hex', 'tags', 'split_imports', 'module_oid']
+            'defval_bin_octets', 'defval_empty_hex', 'tags', 'split_imports', 'module_oid', 'keywordish']
 
 
 def multiline_text(rng):
